@@ -118,13 +118,22 @@ def r34_pairing_and_metric(ctx, f, fam, results):
   # the other family's detail is looked up with the loop's own tensor name, under a membership test
   subs = [n for n in ast.walk(l) if isinstance(n, ast.Subscript) and isinstance(n.value, ast.Name) and n.value.id in other]
   ctx.check(R, len(subs) == 1 and ast.unparse(subs[0].slice) == name, l, f, subs[0] if subs else l, 'the target tensor must be looked up by the same tensor name')
-  mem = [n for n in ast.walk(l) if isinstance(n, ast.Compare) and any(isinstance(o, ast.In) for o in n.ops) and ast.unparse(n.left) == name and ast.unparse(n.comparators[0]) in other]
-  ctx.check(R, len(mem) == 1, l, f, 'name in target details', 'only tensors present in both models may be compared')
+  # (decided on values by the validation simulation C18.R9; here: the lookup happens under the membership fact, nested or as a guard clause)
+  mem = [x for x in (common.facts_at(l, subs[0]) if subs else []) if isinstance(x, ast.Compare) and len(x.ops) == 1 and isinstance(x.ops[0], ast.In)
+         and ast.unparse(x.left) == name and ast.unparse(x.comparators[0]) in other]
+  ctx.check(R, len(mem) >= 1, l, f, 'name in target details', 'only tensors present in both models may be compared')
   cmp_calls = [c for c in common.calls_in(l) if isinstance(c.func, ast.Name) and c.func.id == 'compare_fn']
   if ctx.check(R, len(cmp_calls) == 1 and len(cmp_calls[0].args) == 2, l, f, 'compare_fn(...)', 'the metric must be applied once per tensor and sample'):
     a0, a1 = [ast.unparse(a) for a in cmp_calls[0].args]
-    ctx.check(R, results.get(a0) == f.pos_params[1] and results.get(a1) == f.pos_params[0], cmp_calls[0], f, cmp_calls[0],
-              f'metric arguments are ({a0}: {results.get(a0)}, {a1}: {results.get(a1)}); must be (target data, reference data) - the ratio metric divides by its second argument')
+
+    def family_of(e):   # a local that holds a tensor read, or the read itself
+      if isinstance(e, ast.Name):
+        return results.get(e.id)
+      fams_ = {fam[n.id] for n in ast.walk(e) if isinstance(n, ast.Name) and n.id in fam}
+      return next(iter(fams_)) if len(fams_) == 1 else None
+    f0, f1 = [family_of(a) for a in cmp_calls[0].args]
+    ctx.check(R, f0 == f.pos_params[1] and f1 == f.pos_params[0], cmp_calls[0], f, cmp_calls[0],
+              f'metric arguments are ({a0[:60]}: {f0}, {a1[:60]}: {f1}); must be (target data, reference data) - the ratio metric divides by its second argument')
     st = common.stmt_of(f.node, cmp_calls[0])
     ctx.check(R, isinstance(st, ast.Expr) and isinstance(st.value, ast.Call) and isinstance(st.value.func, ast.Attribute) and st.value.func.attr == 'append' and name in ast.unparse(st.value.func.value), st, f, st,
               'per-sample values must be appended to the list of the same tensor name')
@@ -206,7 +215,9 @@ def r6_subgraph_index(ctx):
   if not ctx.check(R, len(rets) == 1 and isinstance(rets[0].value, ast.Tuple) and len(rets[0].value.elts) == 3, f.node, f, 'return (interpreter, index, details)', 'shape changed'):
     return
   it, idx, det = [defuse.norm(inl.inline(f, e)) for e in rets[0].value.elts]
-  ctx.check(R, it.startswith('utils.create_tfl_interpreter(') and 'tflite_model=model' in it.replace(' ', ''), f.node, f, it[:80], 'the interpreter must be built from the model passed in')
+  mk = inl.inline(f, rets[0].value.elts[0])
+  built_from = common.named_args(ctx, f, mk).get('tflite_model') if isinstance(mk, ast.Call) and common.call_name(mk).endswith('create_tfl_interpreter') else None
+  ctx.check(R, built_from is not None and defuse.norm(built_from) == f.pos_params[0], f.node, f, it[:80], 'the interpreter must be built from the model passed in')
   ctx.check(R, idx.startswith('utils.get_signature_main_subgraph_index(') and 'signature_key' in idx, f.node, f, idx[:100], 'subgraph index must come from the signature on this interpreter')
   ctx.check(R, det.startswith('utils.get_tensor_name_to_details_map(') and 'get_signature_main_subgraph_index' in det, f.node, f, det[:100], 'details must be those of the signature\'s main subgraph')
   g = cfgmod.build(f.node)
